@@ -433,6 +433,9 @@ def transition(
         nodes = [machine.get_state_by_id(node_id) for node_id in node_ids]
         nodes = [node for node in nodes if node is not None]
         if nodes:
+            # 📑 Document order, as the live engine remembers it (the
+            #    snapshot lists ids sorted alphabetically).
+            nodes.sort(key=probe._document_order)
             probe._history[parent_id] = nodes
 
     # 📭 Only actions from THIS step should be reported.
